@@ -6,7 +6,7 @@ from protocol import from_real, KEY_IDX
 import h2bars_util as U
 
 ID = "C09"
-LEAN_MODULE = ["SCoda.Props.C09", "SCoda.Props.Purity", "SCoda.Props.C16b", "SCoda.Props.Strong589", "SCoda.Props.ElemTie", "SCoda.Props.StaticTie", "SCoda.Props.RelTie2", "SCoda.Props.C09n", "SCoda.Props.AbsTie2", "SCoda.Props.StaticLink"]
+LEAN_MODULE = ["SCoda.Props.C09", "SCoda.Props.Purity", "SCoda.Props.C16b", "SCoda.Props.Strong589", "SCoda.Props.ElemTie", "SCoda.Props.StaticTie", "SCoda.Props.RelTie2", "SCoda.Props.C09n", "SCoda.Props.AbsTie2", "SCoda.Props.StaticLink", "SCoda.Props.StaticTie2"]
 LEVEL = "proof"
 CLAUSES = [
     ("every track gets the same number of bars (one list per input track, all of one positive length); the loop terminates for positive bar lengths",
@@ -58,6 +58,8 @@ CLAUSES = [
      ["SCoda.AbsTie2.getMessageTimesOfType_eq", "SCoda.AbsTie2.timesOfType_eq", "SCoda.AbsTie2.timesOfType_init"]),
     ('the link through which the translated sequences_split_bars reads the signature and key queues (AbsoluteSequence.get_message_times_of_type, a hand-written definition in Model/StaticLib.lean) is what the TRANSLATED method computes on a freshly built list, read back through the heap (audit round 3 R1: an edit of that method now breaks this obligation)',
      ["SCoda.StaticLink.timesOfType_link", "SCoda.AbsTie2.getMessageTimesOfType_eq", "SCoda.AbsTie2.timesOfType_init"]),
+    ("TIE BY TRANSLATION under the weakest hypothesis on the wrapper state (audit round 3 R6): the translated sequences_split_bars equals the model for inputs whose meta sequence's fresh absolute view has the same TIME_SIGNATURE and the same KEY_SIGNATURE events (time, numerator, denominator, key), each kind in the same order, as the conversion of its relative view — a stale absolute view, or a view built through add_absolute_message with the signatures of each kind in sort-key order, qualifies; notes, channels and the place of a signature among the other messages of its tick are free. Without that hypothesis the equality is FALSE inside C04's invariant: two key signatures at one tick inserted against the key order give bar keys [G,D,D] from the code and [D,G,G] from the model and from the same content given as a relative view (kernel-checked, replayed: known findings D23 / D36 — sequences_split_bars depends on the wrapper state)",
+     ["SCoda.StaticTie2.sequencesSplitBars_eq", "SCoda.StaticTie2.sequencesSplitBars_absStale", "SCoda.StaticTie2.absCoherentSigs_of_keyOrder", "SCoda.StaticTie2.seq_split_bars_link", "SCoda.StaticTie2.sequencesSplitBars_constructed", "SCoda.StaticTie2.sequencesSplitBars_eq_statement_false", "SCoda.StaticTie2.witSeq_not_coherentSigs"]),
 ]
 RULE = ("multi-track pieces (1-3 tracks, 1-5 bars, 9 signatures with boundary-aligned changes, key changes on bar lines, "
         "tracks of unequal length, empty tracks, notes crossing bar lines) x re-quantisation on/off x meta_track_index 0..2; since audit round 3 also: "
